@@ -350,6 +350,170 @@ fn fixed_sets(rng: &mut Rng, n_adv: usize) -> Vec<Set> {
     out
 }
 
+/// Directed families run on every seed (deterministic, no PRNG):
+///  * `super()` evaluated AFTER a nested block has ended, in 2- and 3-level lineages, every order
+///    of (nested block, super) per level, and `super()` outside every block after a block;
+///  * an extreme-pair matrix (i128::MIN, -1 as i64 and as i128, 0, 1, i128::MAX, u128::MAX,
+///    i64::MIN — all 64 pairs) through every binary arithmetic / comparison instruction and unary
+///    minus, from the context and against literals;
+///  * filters that must FAIL (wrong receiver kind, wrong kwarg type) at every filter position:
+///    `{{ v | f }}`, filter sections, set-block chains (first and later position, set and
+///    set_global), inside blocks, component bodies, includes and loops.
+fn directed_sets() -> Vec<Set> {
+    let mut out = Vec::new();
+    let e = |n: &str, b: Option<&str>| (n.to_string(), b.map(|s| s.to_string()));
+    let both_ae = |out: &mut Vec<Set>, stream: &str, templates: Vec<(String, String)>, entries: Vec<(String, Option<String>)>, runs: Vec<Run>| {
+        for ae in ["on", "off"] {
+            out.push(Set { stream: stream.to_string(), templates: templates.clone(), ae, entries: entries.clone(), runs: runs.clone() });
+        }
+    };
+    let plain_runs = vec![
+        Run { ctx: vec![], global: vec![], kind: "empty" },
+        Run { ctx: vec![("a".into(), "s:3c613e".into()), ("b".into(), "i64:2".into())], global: vec![], kind: "generator" },
+    ];
+
+    // ---- super() after a nested block
+    // body of `outer` at one level: order 0 = super first, 1 = nested block first, 2 = super on both sides,
+    // 3 = two nested blocks then super
+    let outer_body = |tag: &str, order: usize, has_super: bool| -> String {
+        let sup = if has_super { "{{ super() }}" } else { "" };
+        let inner = format!("{{% block inner %}}{tag}i{}{{% endblock inner %}}", if has_super { "{{ super() }}" } else { "" });
+        let tail = format!("{{% block tail %}}{tag}t{{% endblock tail %}}");
+        match order {
+            0 => format!("{tag}({sup}{inner})"),
+            1 => format!("{tag}({inner}{sup})"),
+            2 => format!("{tag}({sup}{inner}{sup})"),
+            _ => format!("{tag}({inner}{tail}{sup}{{{{ a }}}})"),
+        }
+    };
+    for levels in [2usize, 3] {
+        let n_orders = 4usize;
+        let combos = n_orders.pow(levels as u32);
+        for combo in 0..combos {
+            let mut templates: Vec<(String, String)> = Vec::new();
+            let mut k = combo;
+            for lvl in 0..levels {
+                let order = k % n_orders;
+                k /= n_orders;
+                let tag = ["g", "p", "c"][lvl];
+                let name = format!("l{lvl}");
+                let body = outer_body(tag, order, lvl > 0);
+                let src = if lvl == 0 {
+                    format!("A{{% block outer %}}{body}{{% endblock outer %}}B{{% block z %}}z{{% endblock z %}}")
+                } else {
+                    format!("{{% extends \"l{}\" %}}{{% block outer %}}{body}{{% endblock outer %}}", lvl - 1)
+                };
+                templates.push((name, src));
+            }
+            let top = format!("l{}", levels - 1);
+            let mut entries = vec![e(&top, None), e(&top, Some("outer")), e(&top, Some("inner")), e(&top, Some("tail")), e(&top, Some("z"))];
+            if levels == 3 {
+                entries.push(e("l1", None));
+                entries.push(e("l1", Some("outer")));
+            }
+            both_ae(&mut out, "directed.super_after_block", templates, entries, plain_runs.clone());
+        }
+    }
+    // super() outside every block, after / before / between blocks; in a base and through a child
+    for (i, src) in [
+        "{% block a %}x{% endblock %}{{ super() }}",
+        "{{ super() }}{% block a %}x{% endblock %}",
+        "{% block a %}x{% block n %}y{% endblock %}{% endblock %}-{{ super() }}-{% block b %}z{% endblock %}",
+        "{% block a %}x{% endblock %}{% if a %}{{ super() }}{% endif %}{% for q in [1] %}{{ super() }}{% endfor %}{% block b %}z{% endblock %}",
+        "{% block a %}{% block n %}y{% endblock %}{{ a }}{% endblock %}{% set w = super() %}",
+        "{% filter upper %}{% block a %}x{% endblock %}{{ super() }}{% endfilter %}",
+    ]
+    .iter()
+    .enumerate()
+    {
+        let templates = vec![
+            (format!("b{i}"), src.to_string()),
+            (format!("k{i}"), format!("{{% extends \"b{i}\" %}}{{% block a %}}K{{{{ super() }}}}{{% endblock %}}")),
+        ];
+        let entries = vec![e(&format!("b{i}"), None), e(&format!("b{i}"), Some("a")), e(&format!("k{i}"), None), e(&format!("k{i}"), Some("a")), e(&format!("k{i}"), Some("n")), e(&format!("k{i}"), Some("b"))];
+        both_ae(&mut out, "directed.super_outside_block", templates, entries, plain_runs.clone());
+    }
+
+    // ---- extreme pairs through every arithmetic instruction
+    let extremes: [&str; 8] = [
+        "i128:-170141183460469231731687303715884105728",
+        "i64:-1",
+        "i128:-1",
+        "i64:0",
+        "i64:1",
+        "i128:170141183460469231731687303715884105727",
+        "u128:340282366920938463463374607431768211455",
+        "i64:-9223372036854775808",
+    ];
+    let ops = ["+", "-", "*", "/", "//", "%", "**", "<", "<=", ">", ">=", "==", "!=", "~", "in"];
+    let mut templates: Vec<(String, String)> = Vec::new();
+    let mut entries = Vec::new();
+    for (i, op) in ops.iter().enumerate() {
+        templates.push((format!("o{i}"), format!("[{{{{ a {op} b }}}}]")));
+        entries.push(e(&format!("o{i}"), None));
+    }
+    for (i, ex) in ["-a", "a % -1", "a // -1", "a * -1", "a / -1", "a - 1", "a + 1", "0 - a", "a ** 2", "2 ** b", "-1 % a", "a % 1", "(a % b) // b", "- (a % b)", "a % b % b", "a | abs", "[a % b for q in [1]]"].iter().enumerate() {
+        templates.push((format!("u{i}"), format!("[{{{{ {ex} }}}}]")));
+        entries.push(e(&format!("u{i}"), None));
+    }
+    templates.push(("stmt".into(), "{% set r = a % b %}{{ r }}{% if a % b == 0 %}Z{% endif %}{% for q in [a % b, a // b] %}{{ q }}{% endfor %}".into()));
+    entries.push(e("stmt", None));
+    let mut runs = Vec::new();
+    for x in extremes.iter() {
+        for y in extremes.iter() {
+            runs.push(Run { ctx: vec![("a".into(), x.to_string()), ("b".into(), y.to_string())], global: vec![], kind: "adversarial" });
+        }
+    }
+    both_ae(&mut out, "directed.extreme_pairs", templates, entries, runs);
+
+    // ---- filters that must fail, at every filter position
+    // (filter call, a receiver expression of a kind it also refuses in `{{ v | f }}` position)
+    let failing: [&str; 24] = [
+        "round", "first", "last", "join", "join(sep=1)", "sort", "unique", "keys", "values", "pairs", "nth(n=0)", "group_by(attribute=\"a\")",
+        "get(key=\"a\")", "trim(pat=1)", "truncate(length=\"3\")", "replace(from=1, to=\"b\")", "indent(width=\"x\")", "split(pat=1)",
+        "trim_start(pat=[1])", "trim_end(pat=none)", "default(value=1, boolean=\"x\")", "round(method=1)", "int(base=\"x\")", "pluralize(singular=1)",
+    ];
+    for (i, f) in failing.iter().enumerate() {
+        let mut templates: Vec<(String, String)> = Vec::new();
+        let mut entries = Vec::new();
+        let add = |name: String, src: String, templates: &mut Vec<(String, String)>| {
+            templates.push((name, src));
+        };
+        add(format!("e{i}"), format!("[{{{{ \"abc\" | {f} }}}}]"), &mut templates);
+        add(format!("v{i}"), format!("[{{{{ a | {f} }}}}]"), &mut templates);
+        add(format!("fs{i}"), format!("{{% filter {f} %}}abc{{% endfilter %}}"), &mut templates);
+        add(format!("sb{i}"), format!("{{% set x | {f} %}}abc{{% endset %}}{{{{ x }}}}"), &mut templates);
+        add(format!("sg{i}"), format!("{{% for q in [1] %}}{{% set_global x | {f} %}}abc{{% endset %}}{{% endfor %}}{{{{ x }}}}"), &mut templates);
+        add(format!("s1{i}"), format!("{{% set x | {f} | upper %}}abc{{% endset %}}{{{{ x }}}}"), &mut templates);
+        add(format!("s2{i}"), format!("{{% set x | upper | {f} %}}abc{{% endset %}}{{{{ x }}}}"), &mut templates);
+        add(format!("s3{i}"), format!("{{% set x | upper | trim | {f} | lower %}}a{{{{ a }}}}c{{% endset %}}{{{{ x }}}}"), &mut templates);
+        add(format!("bl{i}"), format!("{{% block k %}}{{% set x | {f} %}}abc{{% endset %}}{{{{ x }}}}{{% filter {f} %}}q{{% endfilter %}}{{% endblock %}}"), &mut templates);
+        entries.push((format!("bl{i}"), Some("k".to_string())));
+        add(format!("cp{i}"), format!("{{% component w{i}() %}}[{{{{ body }}}}]{{% set x | {f} %}}abc{{% endset %}}{{% endcomponent w{i} %}}{{% <w{i}> %}}{{% set y | {f} %}}abc{{% endset %}}{{{{ y }}}}{{% </w{i}> %}}"), &mut templates);
+        add(format!("ci{i}"), format!("{{% component z{i}() %}}{{% set x | {f} %}}abc{{% endset %}}{{{{ x }}}}{{% endcomponent z{i} %}}{{{{ <z{i}/> }}}}"), &mut templates);
+        templates.push((format!("in{i}"), format!("{{% set x | {f} %}}abc{{% endset %}}{{{{ x }}}}")));
+        add(format!("ic{i}"), format!("{{% filter upper %}}{{% include \"in{i}\" %}}{{% endfilter %}}"), &mut templates);
+        add(format!("lp{i}"), format!("{{% for q in [1, 2] %}}{{% set x | {f} %}}a{{{{ q }}}}{{% endset %}}{{{{ x }}}}{{% endfor %}}"), &mut templates);
+        for (n, _) in templates.iter() {
+            if !n.starts_with("in") {
+                entries.push((n.clone(), None));
+            }
+        }
+        let runs = vec![
+            Run { ctx: vec![], global: vec![], kind: "empty" },
+            Run { ctx: vec![("a".into(), "s:616263".into())], global: vec![], kind: "generator" },
+            Run { ctx: vec![("a".into(), "i64:3".into())], global: vec![], kind: "adversarial" },
+            Run { ctx: vec![("a".into(), "A2 i64:1 s:78".into())], global: vec![], kind: "adversarial" },
+            Run { ctx: vec![("a".into(), "M1 s:61 i64:1".into())], global: vec![], kind: "adversarial" },
+            Run { ctx: vec![("a".into(), "f:3ff8000000000000".into())], global: vec![], kind: "adversarial" },
+            Run { ctx: vec![("a".into(), "y:ff61".into())], global: vec![], kind: "adversarial" },
+            Run { ctx: vec![("a".into(), "N".into())], global: vec![], kind: "adversarial" },
+        ];
+        both_ae(&mut out, "directed.failing_filter", templates, entries, runs);
+    }
+    out
+}
+
 // ------------------------------------------------------------------------------ the real engine
 
 /// class of a render error, from its message (same classes as `showRErr` in Driver/Vm.lean)
@@ -597,6 +761,44 @@ fn shrink_run(set: &Set, entry: usize, run: &Run, exe: &std::path::Path) -> Run 
     }
 }
 
+/// the set cut down to one entry and the templates that entry needs: the entry's template plus
+/// everything reachable through quoted names (extends / include) and component tags; kept only if
+/// the real outcome stays in the same class
+fn reduce_templates(set: &Set, entry: usize, run: &Run, real: &str) -> Set {
+    let mut one = set.clone();
+    one.entries = vec![set.entries[entry].clone()];
+    one.runs = vec![run.clone()];
+    let class = |o: &str| o.split(' ').next().unwrap_or("").to_string();
+    let mut keep: Vec<usize> = Vec::new();
+    if let Some(i) = set.templates.iter().position(|(n, _)| *n == set.entries[entry].0) {
+        keep.push(i);
+    }
+    let mut k = 0;
+    while k < keep.len() {
+        let src = set.templates[keep[k]].1.clone();
+        for (j, (n, other)) in set.templates.iter().enumerate() {
+            if keep.contains(&j) {
+                continue;
+            }
+            let mentions = src.contains(&format!("\"{n}\""));
+            // a component defined in `other` and used here
+            let comp = other.match_indices("{% component ").any(|(at, _)| {
+                let name: String = other[at + 13..].chars().take_while(|c| c.is_alphanumeric() || *c == '_').collect();
+                !name.is_empty() && src.contains(&format!("<{name}"))
+            });
+            if mentions || comp {
+                keep.push(j);
+            }
+        }
+        k += 1;
+    }
+    keep.sort();
+    let mut cand = one.clone();
+    cand.templates = keep.iter().map(|i| set.templates[*i].clone()).collect();
+    let same = build_engine(&cand).map(|mut t| class(&real_outcome(&mut t, &cand.entries[0], run).0) == class(real)).unwrap_or(false);
+    if same { cand } else { one }
+}
+
 fn replay_json(set: &Set, entry: usize, run: &Run, real: &str, model: &str, stage: &str) -> serde_json::Value {
     let mut one = set.clone();
     one.entries = vec![set.entries[entry].clone()];
@@ -681,7 +883,8 @@ fn main() {
 
     // ---- cases
     let mut ev_hist = BTreeMap::new();
-    let mut sets = fixed_sets(&mut rng, env.budget(8, 40));
+    let mut sets = directed_sets();
+    sets.extend(fixed_sets(&mut rng, env.budget(8, 40)));
     sets.extend(bcgen_sets(&mut rng, env.budget(5, 30), env.budget(1500, 30000), env.budget(3, 8), env.budget(4, 12)));
     sets.extend(evgen_sets(&mut rng, env.budget(8000, 200000), env.budget(3, 6), &mut ev_hist));
     for s in &sets {
@@ -720,6 +923,7 @@ fn main() {
                     obs.push(Obs { set: si, entry: e, run: r, real, stacks });
                 } else if l.starts_with("adderr") {
                     report.count("sets.rejected_at_registration");
+                    report.count(&format!("sets.rejected.{}", sets[si].stream.split('.').take(2).collect::<Vec<_>>().join(".")));
                     if report.notes.len() < 4 {
                         report.notes.push(format!("not registered: {}: {}", format!("{:?}", sets[si].templates).chars().take(300).collect::<String>(), l.chars().take(160).collect::<String>()));
                     }
@@ -760,11 +964,34 @@ fn main() {
         if bad_panic || bad_stacks {
             report.oracle_failures += 1;
             let what = if bad_panic { "the real render panicked" } else { "stacks not empty after a successful render" };
-            report.violation(
-                "property",
-                format!("{what}: {} stacks {} — {:?} entry {:?}", show(&o.real), o.stacks, set.templates, set.entries[o.entry]),
-                replay_json(set, o.entry, &set.runs[o.run], &o.real, "-", "real-render"),
-            );
+            if report.violations.len() < 20 {
+                // keep only the templates the entry needs (same failure on the reduced set), then
+                // drop context bindings that do not matter
+                let small_set = reduce_templates(set, o.entry, &set.runs[o.run], &o.real);
+                let mut run = set.runs[o.run].clone();
+                let fails = |r: &Run| -> bool {
+                    build_engine(&small_set).map(|mut t| real_outcome(&mut t, &small_set.entries[0], r).0.split(' ').next() == o.real.split(' ').next()).unwrap_or(false)
+                };
+                for which in 0..2 {
+                    let n = if which == 0 { run.ctx.len() } else { run.global.len() };
+                    for i in (0..n).rev() {
+                        let mut cand = run.clone();
+                        if which == 0 {
+                            cand.ctx.remove(i);
+                        } else {
+                            cand.global.remove(i);
+                        }
+                        if bad_panic && fails(&cand) {
+                            run = cand;
+                        }
+                    }
+                }
+                report.violation(
+                    "property",
+                    format!("{what}: {} stacks {} — {:?} (autoescape {}) entry {:?} ctx {:?}", show(&o.real), o.stacks, small_set.templates, small_set.ae, small_set.entries[0], run.ctx),
+                    replay_json(&small_set, 0, &run, &o.real, "-", "real-render"),
+                );
+            }
         }
         report.count(&format!("real.{}", o.real.split(' ').take(if o.real.starts_with("err") { 2 } else { 1 }).collect::<Vec<_>>().join(".")));
         report.count(&format!("runs.{}", set.runs[o.run].kind));
@@ -784,6 +1011,7 @@ fn main() {
     };
     let mut model_of: BTreeMap<(usize, usize, usize), String> = BTreeMap::new();
     let mut checker_refusals: Vec<String> = Vec::new();
+    let mut refused_sets: Vec<(usize, String)> = Vec::new();
     // set → (c01StaticCheck holds and no listing applies `safe`, which of < > " ' occur in WriteText text)
     let mut c01_of: BTreeMap<usize, (bool, String)> = BTreeMap::new();
     for (k, a) in answers.iter().enumerate() {
@@ -822,6 +1050,9 @@ fn main() {
                 let ids: Vec<&str> = it.collect();
                 if checker_refusals.len() < 5 {
                     checker_refusals.push(format!("{:?} → {}", sets[si].templates, ids.join(" ")).chars().take(500).collect::<String>());
+                }
+                if refused_sets.len() < 3 {
+                    refused_sets.push((si, ids.join(" ")));
                 }
             } else {
                 report.count("checker.sets_fully_accepted");
@@ -954,6 +1185,16 @@ fn main() {
     }
     for r in checker_refusals {
         report.notes.push(format!("checker (Model/VmCheck.lean) refused a real chunk: {r}"));
+    }
+    // a real chunk the verified checker refuses: `vm_no_panic_wellformed` no longer applies to what
+    // the compiler emitted (the directed families above look for the input on which it panics)
+    for (si, ids) in refused_sets {
+        report.model_disagreements += 1;
+        report.violation(
+            "model-mismatch",
+            format!("the verified bytecode checker (Model/VmCheck.lean `checkChunk`) refuses a chunk the real compiler stored: {ids} — {}", format!("{:?}", sets[si].templates).chars().take(400).collect::<String>()),
+            serde_json::json!({"property": PROPERTY, "harness_bin": "cvm", "detail": {"stage": "vm-checker", "chunks": ids}, "case": sets[si].to_json()}),
+        );
     }
     let cmp = report.model_comparisons.max(1);
     let total = (report.model_comparisons + report.histogram.get("compare.skipped_unmodelled").copied().unwrap_or(0)).max(1);
